@@ -3,6 +3,38 @@
 // Contracts for package internal/fees (comment-only; read by /verif/cmd/govc).
 package fees
 
+// ---------------------------------------------------------------------------------
+// fee-market rule (C13)
+// ---------------------------------------------------------------------------------
+
+// rolled: slot i after rolling by s seconds; upd: after also adding the parent's
+// consumption c into slot 9-s (saturating) when s < 10; total: saturating sum.
+//@ spec func rolled(w window.Window, s int, i int) int = ite(i + s < 10, window.slot(w, i + s), 0)
+//@ spec func upd(w window.Window, c int, s int, i int) int = ite(s < 10 && i == 9 - s, min(MAX, rolled(w, s, i) + c), rolled(w, s, i))
+//@ spec func total(w window.Window, c int, s int) int = min(MAX, upd(w,c,s,0)+upd(w,c,s,1)+upd(w,c,s,2)+upd(w,c,s,3)+upd(w,c,s,4)+upd(w,c,s,5)+upd(w,c,s,6)+upd(w,c,s,7)+upd(w,c,s,8)+upd(w,c,s,9))
+// the proportional change, at least one unit, in exact (unbounded) arithmetic
+//@ spec opaque func delta(p int, excess int, target int, denom int) int = max(1, ((p * excess) / target) / denom)
+
+// priceDelta computes the proportional change without intermediate overflow
+// (math/big is modelled as mathematical integers), saturating at MAX.
+//@ func priceDelta props C13
+//@   requires target > 0 && changeDenom > 0
+//@   ensures result == min(MAX, delta(price, excess, target, changeDenom))
+
+//@ func computeNextPriceWindow props C13
+//@   requires target > 0 && changeDenom > 0
+//@   let T = total(previous, previousConsumed, since)
+//@   let k = ite(since > 10, since / 10, 1)
+//@   at call 2 assert start == 8 * (9 - since) && start / 8 == 9 - since
+//@   at call 2 assert forall i int :: 0 <= i && i < 10 ==> window.slot(newRollupWindow, i) == upd(previous, previousConsumed, since, i)
+//@   at call 3 assert forall i int :: 0 <= i && i < 10 ==> window.slot(newRollupWindow, i) == upd(previous, previousConsumed, since, i)
+//@   at call 3 assert total == T
+//@   ensures forall i int :: 0 <= i && i < 10 ==> window.slot(result1, i) == upd(previous, previousConsumed, since, i)
+//@   ensures result0 >= minPrice
+//@   ensures T > target ==> result0 == max(minPrice, min(MAX, previousPrice + delta(previousPrice, T - target, target, changeDenom)))
+//@   ensures T < target ==> result0 == max(minPrice, max(0, previousPrice - k * delta(previousPrice, target - T, target, changeDenom)))
+//@   ensures T == target ==> result0 == max(minPrice, previousPrice)
+
 //@ func (*Manager).Fee
 //@   trusted
 //@   noframe
